@@ -30,6 +30,8 @@ CONFIGS = {
     # cross pair ETH/BTC next to ETH/USD and BTC/USD; the minimum fee (0.5 BTC) exceeds the proceeds of a unit order
     "K16": dict(lend=dict(req="0.5", isym="same", period=10), fee=("0.25", "0.5"), liq=None, init=(("USD", 10000),), bp=8, qp=2,
                 pairs=3),
+    # orders placed before the first bar (no clock, no price yet)
+    "K0p": dict(lend=None, fee=(1, 2), liq=(25, 10), init=(("USD", 1000), ("BTC", 5)), bp=0, qp=2, pre_bar=True),
     "K14": dict(lend=dict(req="0.5", isym="same", period=7, pct="2.5"), fee=(1, 0), liq=(25, 10),
                 init=(("USD", 500), ("BTC", 2)), bp=2, qp=2),
 }
@@ -48,8 +50,9 @@ def thorough_spec(quick, focus):
             have.add(item)
             items.append(item)
     for k in CONFIGS:
-        if CONFIGS[k].get("pairs", 1) == 1:
+        if CONFIGS[k].get("pairs", 1) == 1 and not CONFIGS[k].get("pre_bar"):
             add((k, "small", 4))
+    add(("K0p", "small", 4))
     add(("K0", "std", 4))
     add(("K1", "std", 4))
     add(("K5", "std", 3))
@@ -83,6 +86,8 @@ def plan(prop, tier, spec):
         cfg = CONFIGS[name]
         alpha = exch.alphabet(cfg, level)
         bars = [a for a in alpha if a[0] == "bar"]
+        if cfg.get("pre_bar"):
+            bars = [a for a in alpha if a[0] in ("bar", "ord")]
         for b in bars:
             if depth >= 6:
                 # deep and narrow: one shard per first bar keeps the de-duplication effective
